@@ -490,3 +490,117 @@ pub(crate) fn search_codec(seed: u64) -> Option<String> {
     }
     None
 }
+
+/// Directed witness search for the Felt NTT (bounded; witness production only): for every power
+/// of two n <= 1024, round trip and product against the schoolbook negacyclic product.
+pub(crate) fn ntt_case(a: &[i64], b: &[i64]) -> Result<(), String> {
+    use crate::fast_fft::FastFft;
+    let n = a.len();
+    let pa = Polynomial::new(a.iter().map(|v| Felt::new(*v as i16)).collect::<Vec<Felt>>());
+    let pb = Polynomial::new(b.iter().map(|v| Felt::new(*v as i16)).collect::<Vec<Felt>>());
+    let (a2, b2) = (a.to_vec(), b.to_vec());
+    let r = std::panic::catch_unwind(move || {
+        let fa = pa.fft();
+        let fb = pb.fft();
+        let back = fa.ifft();
+        let prod = fa.hadamard_mul(&fb).ifft();
+        (back.coefficients.iter().map(|f| f.value() as i64).collect::<Vec<i64>>(),
+         prod.coefficients.iter().map(|f| f.value() as i64).collect::<Vec<i64>>())
+    });
+    let (back, prod) = match r { Ok(x) => x, Err(_) => return Err("the transform panicked".into()) };
+    if back != a2 { return Err(format!("intt(ntt(a)) != a at n = {}", n)); }
+    let q = refspec::Q;
+    for k in 0..n {
+        let mut acc = 0i64;
+        for i in 0..n {
+            let (j, sign) = if k >= i { (k - i, 1) } else { (k + n - i, -1) };
+            acc = (acc + sign * a2[i] * b2[j]).rem_euclid(q);
+        }
+        if prod[k] != acc { return Err(format!("intt(ntt(a).ntt(b))[{}] = {} but a*b mod (X^n+1, q) gives {} at n = {}", k, prod[k], acc, n)); }
+    }
+    Ok(())
+}
+pub(crate) fn search_ntt(seed: u64) -> Option<String> {
+    let mut st = seed.wrapping_mul(6364136223846793005).wrapping_add(1442695040888963407) | 1;
+    let mut rnd = move || { st ^= st << 13; st ^= st >> 7; st ^= st << 17; st };
+    let mut n = 1usize;
+    while n <= 1024 {
+        for round in 0..4 {
+            let a: Vec<i64> = (0..n).map(|i| match round { 0 => 12288, 1 => (i as i64 * 7 + 1) % 12289, 2 => if i == n - 1 { 1 } else { 0 }, _ => (rnd() % 12289) as i64 }).collect();
+            let b: Vec<i64> = (0..n).map(|i| match round { 0 => 12288, 1 => (i as i64 * 13 + 5) % 12289, 2 => if i == 1 % n { 12288 } else { 0 }, _ => (rnd() % 12289) as i64 }).collect();
+            if n > 256 && round == 1 { continue; }
+            if let Err(why) = ntt_case(&a, &b) {
+                let enc = |v: &Vec<i64>| v.iter().map(|x| x.to_string()).collect::<Vec<_>>().join(";");
+                return Some(format!("{} | argv=ntt-case,{},{}", why, enc(&a), enc(&b)));
+            }
+        }
+        n *= 2;
+    }
+    None
+}
+
+/// Directed witness search for the public-key codec (bounded; witness production only).
+pub(crate) fn pk_case<const N: usize>(b: &[u8]) -> Result<(), String> {
+    // decode: accepted strings must be canonical and carry only fields below q
+    let b2 = b.to_vec();
+    let r = std::panic::catch_unwind(move || PublicKey::<N>::from_bytes(&b2).map(|k| k.to_bytes()));
+    let expect_ok = {
+        let n = N; let len = 1 + 14 * n / 8;
+        b.len() == len && b[0] as usize == (if n == 512 { 9 } else { 10 }) && {
+            let mut ok = true;
+            for i in 0..n {
+                let mut v = 0u32;
+                for k in 0..14 { let p = 8 + 14 * i + k; v = (v << 1) | ((b[p / 8] >> (7 - p % 8)) & 1) as u32; }
+                if v >= 12289 { ok = false; }
+            }
+            ok
+        }
+    };
+    match r {
+        Err(_) => Err("PublicKey::from_bytes panicked".into()),
+        Ok(Ok(back)) => if !expect_ok { Err("accepted a string that is not a canonical public-key encoding".into()) }
+                        else if back != b { Err("re-encoding the accepted key does not reproduce the input".into()) } else { Ok(()) },
+        Ok(Err(e)) => if expect_ok { Err(format!("rejected a canonical public-key encoding: {:?}", e)) } else { Ok(()) },
+    }
+}
+pub(crate) fn pk_obj_case<const N: usize>(h: &[i64]) -> Result<(), String> {
+    let hv: Vec<Felt> = h.iter().map(|v| Felt::new(*v as i16)).collect();
+    let pk = PublicKey::<N> { h: Polynomial::new(hv.clone()) };
+    let r = std::panic::catch_unwind(move || { let b = pk.to_bytes(); (b.clone(), PublicKey::<N>::from_bytes(&b)) });
+    match r {
+        Err(_) => Err("PublicKey::to_bytes / from_bytes panicked".into()),
+        Ok((b, back)) => {
+            if b.len() != 1 + 14 * N / 8 { return Err(format!("encoded size {} is not {}", b.len(), 1 + 14 * N / 8)); }
+            match back { Ok(k) => if k.h.coefficients != hv { Err("decoding the encoding gives a different key".into()) } else { Ok(()) },
+                         Err(e) => Err(format!("decoding the encoding of a public key failed: {:?}", e)) }
+        }
+    }
+}
+pub(crate) fn search_pk(seed: u64) -> Option<String> {
+    let mut st = seed.wrapping_mul(6364136223846793005).wrapping_add(1442695040888963407) | 1;
+    let mut rnd = move || { st ^= st << 13; st ^= st >> 7; st ^= st << 17; st };
+    fn go<const N: usize>(rnd: &mut dyn FnMut() -> u64) -> Option<String> {
+        let enc = |v: &Vec<i64>| v.iter().map(|x| x.to_string()).collect::<Vec<_>>().join(";");
+        // objects: special coefficient patterns
+        for pat in 0..8 {
+            let h: Vec<i64> = (0..N).map(|i| match pat {
+                0 => 0, 1 => 12288, 2 => if i == N - 1 { 0 } else { 1 + (i as i64 % 12288) }, 3 => if i == 0 { 0 } else { 12288 },
+                4 => if i == N - 1 { 12288 } else { 0 }, 5 => 8192, 6 => (i as i64 * 24 + 1) % 12289, _ => (rnd() % 12289) as i64 }).collect();
+            if let Err(why) = pk_obj_case::<N>(&h) { return Some(format!("{} | argv=pk-obj-case,{},{}", why, N, enc(&h))); }
+        }
+        // strings: canonical encoding perturbed (header bits, one field raised to q .. 16383, lengths)
+        let len = 1 + 14 * N / 8;
+        let mut base = vec![0u8; len];
+        base[0] = if N == 512 { 9 } else { 10 };
+        let mut cands: Vec<Vec<u8>> = vec![base.clone(), vec![], base[..len - 1].to_vec(), { let mut x = base.clone(); x.push(0); x }];
+        for hb in 0..8 { let mut x = base.clone(); x[0] ^= 1 << hb; cands.push(x); }
+        for (i, v) in [(0usize, 12289u32), (0, 16383), (N - 1, 12289), (N / 2, 12290), (1, 12288), (N - 1, 12288)] {
+            let mut x = base.clone();
+            for k in 0..14 { let p = 8 + 14 * i + k; if (v >> (13 - k)) & 1 == 1 { x[p / 8] |= 1 << (7 - p % 8); } }
+            cands.push(x);
+        }
+        for c in cands { if let Err(why) = pk_case::<N>(&c) { return Some(format!("{} | argv=pk-str-case,{},{}", why, N, hexs(&c))); } }
+        None
+    }
+    go::<512>(&mut rnd).or_else(|| go::<1024>(&mut rnd))
+}
